@@ -29,3 +29,19 @@ CHECKS["C12"] = dict(
     level_text="Random requests over random states, every engine/store step of the recorded run is a candidate fault position (thorough enumerates all for a quarter of the cases).",
     level_note="Trusted: rapid, interception layer, fake engine as the source of container truth; the planned count for EACH/FILL comes from Calcium.CalculateCapacity.",
     design_ref="DESIGN.md §4 C12", assumptions=WORLD_ASSUME)
+
+CHECKS["C20"] = dict(
+    pkg="cluster", tests=[T("TestC20", 150, 60000, shrinktime="60s")], level="exploration",
+    technique="property-based testing (rapid) on the un-mocked cluster world; oracle = per-goroutine lock-order invariant over the recorded distributed-lock events",
+    rule="two pods with nodes spread across them, two prefix deployments, then 1-5 operations among create/remove/dissociate/realloc/replace/control/send/set-node/remove-node/remove-pod/capacity/node-resource/pod-resource with include lists in any order, with repeats and across pods, and unsorted workload id lists with duplicates; every CreateLock/Lock/Unlock is recorded with its goroutine; invariant: pod locks before workload locks, strictly ascending keys within a class, node-operation locks only with nothing held and nothing acquired while one is held. Non-trivial = an operation held >= 2 locks at once; distinct by hash of the case",
+    level_text="Random search over operations and filters; the invariant is checked on the real lock calls of the real code paths (including the asynchronous remap).",
+    level_note="Trusted: rapid, the lock wrapper around store.CreateLock, goroutine ids from runtime.Stack. Per goroutine is the right unit because every nesting of locks in calcium is synchronous.",
+    design_ref="DESIGN.md §4 C20", assumptions=WORLD_ASSUME)
+
+CHECKS["C21"] = dict(
+    pkg="cluster", tests=[T("TestC21", 250, 80000, shrinktime="30s")], level="exploration",
+    technique="property-based testing (rapid) on the un-mocked world with both metadata stores; oracle = reference selection written from the statement vs. the node set CalculateCapacity(DUMMY, empty request) offers",
+    rule="1-2 pods, 1-5 nodes that are test nodes or non-test nodes with/without a heartbeat status, optionally bypassed, with label sets; filter = include list (repeats, any order, missing names) or pod/any-pod with excludes, label filter, all flag; 30% on the Redis store. Non-trivial = include list with a repeat, or a down/bypassed node exists; distinct by hash of the case",
+    level_text="Random search over filters and pod states on both back ends against an independent reference; both directions (dropped and extra nodes) are decided.",
+    level_note="Trusted: rapid, the reference selection; the observed set is what the resource manager was asked about (every selected node has unlimited capacity for an empty request).",
+    design_ref="DESIGN.md §4 C21", assumptions=WORLD_ASSUME)
